@@ -18,6 +18,7 @@ import (
 	"context"
 	"fmt"
 	"io"
+	"sort"
 	"strings"
 	"time"
 
@@ -54,9 +55,41 @@ func (j *Builder) Day(d time.Time) *Day {
 }
 
 func (j *Builder) Build() *Journal {
-	return &Journal{
-		Days: dict.SortedValues(j.days, CompareDays),
+	days := dict.SortedValues(j.days, CompareDays)
+	for _, d := range days {
+		d.sortBySource()
 	}
+	return &Journal{
+		Days: days,
+	}
+}
+
+// sortBySource orders the directives of a day by their source location (file
+// path, offset). Files are parsed concurrently and arrive in a schedule-dependent
+// order; directives without a source keep their insertion order.
+func (d *Day) sortBySource() {
+	sort.SliceStable(d.Prices, func(i, j int) bool {
+		return d.Prices[i].Src != nil && d.Prices[j].Src != nil && rangeBefore(d.Prices[i].Src.Range, d.Prices[j].Src.Range)
+	})
+	sort.SliceStable(d.Openings, func(i, j int) bool {
+		return d.Openings[i].Src != nil && d.Openings[j].Src != nil && rangeBefore(d.Openings[i].Src.Range, d.Openings[j].Src.Range)
+	})
+	sort.SliceStable(d.Transactions, func(i, j int) bool {
+		return d.Transactions[i].Src != nil && d.Transactions[j].Src != nil && rangeBefore(d.Transactions[i].Src.Range, d.Transactions[j].Src.Range)
+	})
+	sort.SliceStable(d.Assertions, func(i, j int) bool {
+		return d.Assertions[i].Src != nil && d.Assertions[j].Src != nil && rangeBefore(d.Assertions[i].Src.Range, d.Assertions[j].Src.Range)
+	})
+	sort.SliceStable(d.Closings, func(i, j int) bool {
+		return d.Closings[i].Src != nil && d.Closings[j].Src != nil && rangeBefore(d.Closings[i].Src.Range, d.Closings[j].Src.Range)
+	})
+}
+
+func rangeBefore(r1, r2 syntax.Range) bool {
+	if r1.Path != r2.Path {
+		return r1.Path < r2.Path
+	}
+	return r1.Start < r2.Start
 }
 
 func (j *Builder) Add(d model.Directive) error {
